@@ -73,6 +73,26 @@ Proof.
 Qed.
 Print Assumptions C17_execution_follows_class_order.
 
+(* the same sentence read class by class: of any two handlers that ran, the earlier one first —
+   before an attribute handler only attribute handlers ran; before a filter only attribute handlers and
+   filters; before the formatter no sink or nested pipeline; after a sink only sinks and pipelines *)
+Theorem C17_attributes_first_formatting_before_sinks : forall ops leaf_of st m,
+  exists pre, (exists rest, run_cfg src_cfg ops = pre ++ rest)
+    /\ map QtlVerif.PipelineProofs.ev_oid
+          (QtlVerif.PipelineDefs.res_events
+             (QtlVerif.PipelineDefs.run QtlVerif.SrcPipeline.src_cfg
+                (QtlVerif.SortedExecProofs.to_handlers leaf_of (run_cfg src_cfg ops)) st m)) = map snd pre
+    /\ forall l1 a l2 b l3, pre = l1 ++ a :: l2 ++ b :: l3 ->
+         (fst b = Attr -> fst a = Attr)
+         /\ (fst b = Filt -> fst a = Attr \/ fst a = Filt)
+         /\ (fst b = Fmt -> fst a = Attr \/ fst a = Filt \/ fst a = Fmt)
+         /\ (fst a = Snk -> fst b = Snk \/ fst b = Pipe \/ fst b = Gen).
+Proof.
+  exact (QtlVerif.SortedExecProofs.attributes_first_formatting_before_sinks src_cfg QtlVerif.SrcPipeline.src_cfg
+           C17_source_configuration_good C17_pipeline_semantics_configuration_good).
+Qed.
+Print Assumptions C17_attributes_first_formatting_before_sinks.
+
 (* non-vacuity: a history mixing all calls, out of class order, with clears *)
 Example C17_nonvacuous :
   run_cfg src_cfg [AppendPipeline; AppendSink; SetFormatter; AppendFilter; AppendAttr; AppendSink;
